@@ -201,8 +201,36 @@ impl Sys {
                         (self.reg.broadcast_notify_json(&path, &v).unwrap(), serde_json::to_vec(&v).unwrap(), BodyFormat::Json as u16)
                     }
                     1 => {
-                        let v = (tok, "x".to_string());
-                        (self.reg.broadcast_notify_beve(&path, &v).unwrap(), beve::to_vec(&v).unwrap(), BodyFormat::Beve as u16)
+                        // body shapes on which BEVE encoders may legitimately differ in strategy but not in bytes: mixed tuple,
+                        // homogeneous tuple, fixed-size array, heterogeneous JSON array, map, struct with a flattened part
+                        #[derive(serde::Serialize)]
+                        struct Inner {
+                            a: u64,
+                            b: [f32; 2],
+                        }
+                        #[derive(serde::Serialize)]
+                        struct Flat {
+                            id: u64,
+                            #[serde(flatten)]
+                            rest: Inner,
+                        }
+                        let (res, want) = match tok / 4 % 6 {
+                            0 => { let v = (tok, "x".to_string()); (self.reg.broadcast_notify_beve(&path, &v), beve::to_vec(&v)) }
+                            1 => { let v = (tok as u32, 7u32); (self.reg.broadcast_notify_beve(&path, &v), beve::to_vec(&v)) }
+                            2 => { let v = [tok as f64, 1.5, -0.0]; (self.reg.broadcast_notify_beve(&path, &v), beve::to_vec(&v)) }
+                            3 => { let v = json!([1, "two", 3.0, tok]); (self.reg.broadcast_notify_beve(&path, &v), beve::to_vec(&v)) }
+                            4 => { let v = json!({"tok": tok, "list": [1, 2, 3], "nested": {"k": [tok]}}); (self.reg.broadcast_notify_beve(&path, &v), beve::to_vec(&v)) }
+                            _ => { let v = Flat { id: tok, rest: Inner { a: tok, b: [1.0, 2.0] } }; (self.reg.broadcast_notify_beve(&path, &v), beve::to_vec(&v)) }
+                        };
+                        match (res, want) {
+                            (Ok(r), Ok(w)) => (r, w, BodyFormat::Beve as u16),
+                            (r, w) => {
+                                // the reference encoder and the broadcast must agree on whether the body is encodable at all
+                                let agree = r.is_err() && w.is_err();
+                                let p = if agree { None } else { Some(format!("BEVE broadcast of body shape {} returned ok={}, the reference encoder ok={}", tok / 4 % 6, r.is_ok(), w.is_ok())) };
+                                return (Ret::Set((0..NP as u8).filter(|p| self.reg.get(pid(*p)).is_some()).collect()), p);
+                            }
+                        }
                     }
                     2 => {
                         let t = format!("text-{tok}");
